@@ -87,7 +87,7 @@ PROPS["C09"] = {
     "level": "model_checking",
     "harness": ["C09_"],
     "tiers": {
-        "quick": {"timeout": "20s", "maxsteps": 8000000, "bounds": "10 constructions (immutable/freeze of arrays and maps, nested, storage with spare capacity, freeze of immutable, module export, builtin-module table) x sequences of 1..2 operations from 26 array / 13 map operation templates (index/selector assignment, slicing (also empty slices i:i) + writes/append/splice, append + writes, + + writes, copy + writes, splice, delete, for-in with writes, writes through nested/derived/wrapped values and through a function parameter); indices i, j, written value v and element payloads a, b are symbolic int64", "cross": 2},
+        "quick": {"timeout": "20s", "maxsteps": 8000000, "bounds": "10 constructions (immutable/freeze of arrays and maps, nested, storage with spare capacity, freeze of immutable, module export, builtin-module table) x sequences of 1..2 operations from 34 array / 15 map operation templates (incl. the value spread into variadic and fixed parameters) (index/selector assignment, slicing (also empty slices i:i) + writes/append/splice, append + writes, + + writes, copy + writes, splice, delete, for-in with writes, writes through nested/derived/wrapped values and through a function parameter); indices i, j, written value v and element payloads a, b are symbolic int64", "cross": 2},
         "thorough": {"timeout": "60s", "maxsteps": 8000000, "bounds": "as quick (sequence length 1..2); freeze laws on 5 shapes incl. shared sub-structure", "cross": 3},
     },
     "reach": {"C09_Ops": ["ops"], "C09_Freeze": ["freeze"]},
